@@ -35,6 +35,7 @@ var ErrInjected = errors.New("verif: injected read error")
 type Out struct {
 	Err       error
 	Panic     any
+	PanicSite string
 	ErrChunk  int      // index of the chunk being consumed when the call returned an error; len(chunks) = at EOF; -1 no error
 	Keys      []string // abstract key observed at each Read call (state after i chunks)
 	KeyFrom   int
@@ -139,6 +140,7 @@ func (m *M) FeedFrom(chunks [][]byte, cfg Config, wantKeys, wantSnaps bool, from
 		defer func() {
 			if p := recover(); p != nil {
 				o.Panic = p
+				o.PanicSite = snap.PanicSite()
 			}
 		}()
 		m.run(m, r, cfg, o, &inst)
@@ -162,6 +164,7 @@ func (m *M) Whole(data []byte, cfg Config) (o *Out) {
 		defer func() {
 			if p := recover(); p != nil {
 				o.Panic = p
+				o.PanicSite = snap.PanicSite()
 			}
 		}()
 		m.whole(m, data, cfg, o)
@@ -443,9 +446,9 @@ func (m *M) Key(inst any) string {
 			if f, ok := snap.Field(inst, "lastStrKey"); ok && f.Len() > 0 {
 				b.WriteString(" lsk")
 			}
-			if f, ok := snap.Field(inst, "tmp"); ok && mode == "tokenMap" {
-				fmt.Fprintf(&b, " t=%s", tokClass(f.Bytes()))
-			}
+		}
+		if f, ok := snap.Field(inst, "tmp"); ok && mode == "tokenMap" {
+			fmt.Fprintf(&b, " t=%s", tokClass(f.Bytes()))
 		}
 		if snap.Bool(inst, "exkey") {
 			b.WriteString(" exkey")
